@@ -28,6 +28,13 @@ func VerifC18_GRPCCodeTable() {
 	to, te, fa := nondetBool("timeout"), nondetBool("temporary"), nondetBool("fault")
 	name, id, msg := nondetString("name", 2), nondetString("id", 2), nondetString("msg", 2)
 	se := &goa.ServiceError{Name: name, ID: id, Message: msg, Timeout: to, Temporary: te, Fault: fa}
+	statusCause := nondetBool("cause-is-a-grpc-status-error")
+	if statusCause {
+		// what a generated MakeXxx(err) produces around a downstream gRPC error
+		se = goa.NewServiceError(status.Error(codes.NotFound, msg), name, to, te, fa)
+		id = se.ID
+		msg = se.Message // the service error's message is the cause's text
+	}
 	var in error = se
 	if nondetBool("wrapped") {
 		in = &verifWrap{msg: msg, inner: se}
@@ -47,6 +54,10 @@ func VerifC18_GRPCCodeTable() {
 		want = codes.DeadlineExceeded
 	case fa:
 		want = codes.Internal
+	}
+	if statusCause {
+		// an error that is or wraps a gRPC status keeps that status' code
+		want = codes.NotFound
 	}
 	verifObserve("code", uint32(st.Code()))
 	verifAssert("code-table", st.Code() == want)
